@@ -156,14 +156,55 @@ def boxedCheckTemplate (r : Rng) : Rng × Rules.Pos :=
   let (r, b) := scatter r b extra
   (r, { board := b, player := .white, rights := Rights.none, ep := none, halfmove := 3, plies := 50 })
 
+/-- a king next to an enemy rook that still stands on its corner with the castling right intact (the king,
+    or another man, may capture it: the victim's right must go), both wings, both rights held -/
+def cornerRookTemplate (r : Rng) : Rng × Rules.Pos :=
+  let empty : Rules.RBoard := Vector.replicate 64 none
+  let b := empty.set! 60 (some ⟨.king, .black⟩) |>.set! 56 (some ⟨.rook, .black⟩) |>.set! 63 (some ⟨.rook, .black⟩)
+  let (r, wing) := r.below 2
+  let (r, where') := r.below 3
+  -- white king beside the h8 / a8 rook (g7, h7, g8 resp. b7, a7, b8 are too close to e8 only for g8/b8… keep rank 7)
+  let kf := if wing = 0 then (if where' = 0 then 6 else 7) else (if where' = 0 then 1 else 0)
+  let b := putIfEmpty b (sqAt kf 6) ⟨.king, .white⟩
+  let (r, n) := r.below 4
+  let (r, b) := scatter r b n
+  let (r, wr) := r.below 2
+  let b := if wr = 0 then b else (putIfEmpty (putIfEmpty b 4 ⟨.king, .white⟩) 7 ⟨.rook, .white⟩)
+  (r, { board := b, player := .white, rights := ⟨⟨false, false⟩, ⟨true, true⟩⟩, ep := none, halfmove := 2, plies := 78 })
+
+/-- a pawn on the seventh rank pinned along a diagonal by a bishop or queen standing on the last rank next to
+    it: its only moves are the four capturing promotions that take the pinner -/
+def pinnedPromoTemplate (r : Rng) : Rng × Rules.Pos :=
+  let empty : Rules.RBoard := Vector.replicate 64 none
+  let (r, f) := r.below 6
+  let f := f + 1                      -- pawn file 1..6
+  let (r, side) := r.below 2
+  let pf := if side = 0 then f + 1 else f - 1      -- pinner's file on rank 8
+  let (r, q) := r.below 2
+  let b := empty.set! (sqAt f 6) (some ⟨.pawn, .white⟩)
+  let b := b.set! (sqAt pf 7) (some ⟨if q = 0 then .bishop else .queen, .black⟩)
+  -- the king further down the same diagonal
+  let (r, d) := r.below 4
+  let d := d + 1
+  let kf : Int := if side = 0 then (f : Int) - d else (f : Int) + d
+  let kr : Int := 6 - d
+  let b := if 0 ≤ kf ∧ kf < 8 ∧ 0 ≤ kr then putIfEmpty b (sqAt kf.toNat kr.toNat) ⟨.king, .white⟩
+           else putIfEmpty b (sqAt (if side = 0 then f - 1 else f + 1) 5) ⟨.king, .white⟩
+  let (r, bk) := r.below 64
+  let b := putIfEmpty b bk ⟨.king, .black⟩
+  let (r, n) := r.below 3
+  let (r, b) := scatter r b n
+  (r, { board := b, player := .white, rights := Rights.none, ep := none, halfmove := 0, plies := 64 })
+
 def hasBothKings (p : Rules.Pos) : Bool :=
   Rules.count p.board (· == ⟨.king, .white⟩) == 1 && Rules.count p.board (· == ⟨.king, .black⟩) == 1
 
 /-- a legal template position (both colours: every second one is mirrored) -/
 def templatePos (r : Rng) : Rng × Option Rules.Pos :=
-  let (r, which) := r.below 12
+  let (r, which) := r.below 15
   let (r, p) := if which < 6 then epTemplate r else if which < 8 then castleTemplate r
-    else if which < 10 then promoTemplate r else boxedCheckTemplate r
+    else if which < 10 then promoTemplate r else if which < 12 then boxedCheckTemplate r
+    else if which < 14 then cornerRookTemplate r else pinnedPromoTemplate r
   let (r, mir) := r.below 2
   let p := if mir = 0 then p else mirrorPos p
   (r, if hasBothKings p && Rules.legalPos p then some p else none)
